@@ -208,6 +208,8 @@ type iterInfo struct {
 	t     types.Type
 	x     Value
 	len0  *Term // map length at range start, when it bounds the iteration count
+	seen  string // name of the ghost memory "this key was produced already"
+	seen0 string // its initial contents (all false)
 }
 
 // madeHere: v is always a map created by a make in this function (directly, or through a local
@@ -329,6 +331,13 @@ func (e *Engine) rangeInit(fr *Frame, st *State, x *ssa.Range) {
 		if !fnUpdatesMap(x.Parent(), x.X.Type(), x.X) {
 			it.len0 = e.mapLen(st, x.X.Type(), v.term())
 		}
+		// ghost: the set of keys the iteration has produced so far (Go produces each entry at
+		// most once); empty at the start
+		it.seen = seenMemName(fr, x)
+		it.seen0 = FreshName("seen0." + x.Name())
+		ks := e.mapKeySorts(x.X.Type().Underlying().(*types.Map))
+		noteMem(it.seen, ks, BoolSort)
+		st.mems[it.seen] = NewBaseMem(it.seen, ks, BoolSort, it.seen0)
 		fr.iters[x] = it
 		st.ghost[iterKey(fr, x)+".n"] = BVConst(0, IntSort)
 		fr.regs[x] = Value{T: []*Term{BVConst(0, RefSort)}}
@@ -341,6 +350,18 @@ func (e *Engine) rangeInit(fr *Frame, st *State, x *ssa.Range) {
 		return
 	}
 	unsup("range over %s", x.X.Type())
+}
+
+func seenMemName(fr *Frame, x *ssa.Range) string {
+	return fmt.Sprintf("map:iter.%d.%s/seen", fr.id, x.Name())
+}
+
+// seenRead: has the iteration produced key k already? (reads of the initial contents are false)
+func (e *Engine) seenRead(st *State, it *iterInfo, keys []*Term) *Term {
+	ks := e.mapKeySorts(it.t.Underlying().(*types.Map))
+	m := e.mem(st, it.seen, ks, BoolSort)
+	st.assume(Not(UF(it.seen0, BoolSort, keys...)))
+	return m.Read(keys)
 }
 
 func iterKey(fr *Frame, x *ssa.Range) string { return fmt.Sprintf("iter.%d.%s", fr.id, x.Name()) }
@@ -398,6 +419,14 @@ func (e *Engine) rangeNext(fr *Frame, st *State, x *ssa.Next) {
 	// ok => key is in the map (as it is now: Go permits deletion during iteration)
 	st.assume(Implies(ok, present))
 	st.assume(Implies(ok, Neq(ref, BVConst(0, RefSort))))
+	if it.seen != "" {
+		// each entry is produced at most once
+		keys := e.mapKey(st, mt, ref, k)
+		was := e.seenRead(st, it, keys)
+		st.assume(Implies(ok, Not(was)))
+		ks := e.mapKeySorts(mt)
+		st.mems[it.seen] = e.mem(st, it.seen, ks, BoolSort).Write(keys, Or(was, ok))
+	}
 	nkey := iterKey(fr, x.Iter.(*ssa.Range)) + ".n"
 	cnt, has := st.ghost[nkey]
 	if !has {
